@@ -218,6 +218,17 @@ def run(ctx):
             specs.append(spec)
     specs.append({"verts": ["Vertex", "Vertex"], "edges": [], "uni": []})
     specs.append({"verts": ["VSubSub"], "edges": [["DSubSub", 0, 0, 0]], "uni": [0]})
+    brng = random.Random(1414)
+    for nbig, m in ((30, 120), (260, 600)):
+        edges = []
+        for k in range(m):
+            i, j = brng.randrange(nbig), brng.randrange(nbig)
+            c = brng.choice(graphs.ECLS_DU)
+            edges.append([c, i, j, k])
+            if k % 3 == 0:
+                edges.append([c, i, j, k])      # a parallel link of the same class: two identical relation lines
+        specs.append({"verts": [brng.choice(["Vertex", "VSub", "VBoth"]) for _ in range(nbig)], "edges": edges,
+                      "uni": list(range(nbig)), "big": True})
     n_random = 1000 if quick else 6000
     k = 0
     for n in range(len(specs) + n_random):
@@ -239,7 +250,7 @@ def run(ctx):
             if has_other and not TABLE_ALLOWS_OTHER[tname]:
                 continue
             # tables whose show_attrs is '.+' render every dir() entry (slow): every 4th graph only
-            if tname in ("default", "otherlinks") and n >= len(specs) and n % 4:
+            if tname in ("default", "otherlinks") and (spec.get("big") or (n >= len(specs) and n % 4)):
                 continue
             run_case(ctx, spec, tname)
         k += 1
